@@ -223,7 +223,18 @@ let () =
                 e_responded = n_of_string r; e_cmd = bytes_tok cmd } in
       let enc = encode e in
       Printf.printf "%s ENC %s SIZE %s UPPER %s DEC %s\n" id (hex_of_bytes enc)
-        (string_of_n (size e)) (string_of_n (size_upper_limit e)) (show_dec (decode enc))
+        (match size_checked e with Some s -> string_of_n s | None -> "panic")
+        (string_of_n (size_upper_limit e)) (show_dec (decode enc))
+    | [id; "BIG"; t; i; ty; k; c; sr; r; n; _fill] ->
+      (* entry with a Cmd of n equal bytes: only functions of the length are run *)
+      let e = { e_term = n_of_string t; e_index = n_of_string i; e_type = z_of_string ty;
+                e_key = n_of_string k; e_client = n_of_string c; e_series = n_of_string sr;
+                e_responded = n_of_string r; e_cmd = [] } in
+      let n = n_of_string n in
+      Printf.printf "%s BIG SIZE %s LEN %s HEAD %s DEC %s\n" id
+        (match size_checked_len e n with Some s -> string_of_n s | None -> "panic")
+        (string_of_n (size_len e n)) (hex_of_bytes (encode_head e n))
+        (match decode_outcome_len e n with Some _ -> "ok" | None -> "max")
     | [id; "DECODE"; h] ->
       Printf.printf "%s DEC %s\n" id (show_dec (decode (bytes_of_hex h)))
     | [] -> ()
